@@ -29,6 +29,7 @@ func c13(c *Ctx) {
 	c13R6(c, "R6")
 	sMainSendsBuffered(c, "R7/S-MAINSEND")
 	sLockDiscipline(c, "R8/S-LOCK", "Raft", "followerReplication")
+	sState(c, "R9/S-STATE")
 }
 
 // c13R6: the follower side of "a healthy cluster keeps one leader and one
